@@ -26,7 +26,25 @@ type step struct {
 	Op  string
 	H   int   // addh: handler index; mw: target handler index, -1 = router level
 	IDs []int // mw / pdec / sdec: ids registered by this (variadic) call
+	// Alias: the arguments are passed as buf[:n]... where buf is ONE caller-owned slice with spare capacity that every
+	// aliased call of the same kind re-uses (so the next aliased call overwrites the elements of this one, and
+	// append(buf[:k], x)... of a later call writes into the same backing array). IDs of an aliased mw call may start with
+	// ids of the previous aliased mw call (the "common prefix" of append(base, x)...): the same middleware VALUE registered again.
+	Alias bool
+	// Poison: right after the call returned the caller overwrites every element of the argument slice with a
+	// middleware / decorator that was never registered.
+	Poison bool
 }
+
+// fault makes a decorator constructor, or the Subscribe call of a handler's subscriber, fail transiently.
+type fault struct {
+	Kind  string // "pdec" | "sdec": decorator ID returns an error; "subscribe": Subscribe of handler ID's subscriber returns an error
+	ID    int
+	Nth   int // first failing invocation (1-based, counted per decorator / per handler subscriber over the whole program)
+	Times int // number of consecutive failing invocations
+}
+
+func (f fault) String() string { return fmt.Sprintf("%s%d@%dx%d", f.Kind, f.ID, f.Nth, f.Times) }
 
 type hspec struct {
 	Name  string
@@ -43,6 +61,15 @@ type program struct {
 	SLib      []bool // same for subscriber decorators
 	Rounds    int    // messages per handler (2 = a second one after a repeated RunHandlers)
 	DelivRev  bool   // deliver to newly started handlers in descending index order
+	// Faults (retry classes): injected transient errors. A Run / RunHandlers call that returns an injected error is
+	// retried with RunHandlers until it returns nil. HasFaults is set even when the list is empty.
+	Faults    []fault
+	HasFaults bool
+	// DeliverBetween: handlers that a failed RunHandlers call did start get their message before the retry (else after it).
+	DeliverBetween bool
+	// RetryRun: after a Run call that returned an injected error the caller first calls Run again (the router refuses
+	// that: "router is already running"), then RunHandlers.
+	RetryRun bool
 }
 
 func (p *program) String() string {
@@ -59,14 +86,35 @@ func (p *program) String() string {
 			if s.H >= 0 {
 				t = fmt.Sprintf("h%d", s.H)
 			}
-			fmt.Fprintf(&b, "mw(%s:%s)", t, ints(s.IDs))
+			fmt.Fprintf(&b, "mw(%s:%s)%s", t, ints(s.IDs), s.argMark())
 		case opPDec, opSDec:
-			fmt.Fprintf(&b, "%s(%s)", s.Op, ints(s.IDs))
+			fmt.Fprintf(&b, "%s(%s)%s", s.Op, ints(s.IDs), s.argMark())
 		default:
 			b.WriteString(s.Op)
 		}
 	}
+	if p.HasFaults {
+		b.WriteString(" faults[")
+		for i, f := range p.Faults {
+			if i > 0 {
+				b.WriteByte(' ')
+			}
+			b.WriteString(f.String())
+		}
+		fmt.Fprintf(&b, "] deliver-between=%v retry-run=%v", p.DeliverBetween, p.RetryRun)
+	}
 	return b.String()
+}
+
+// argMark: "~" = arguments passed in the caller's re-used slice, "~!" = and overwritten by the caller after the call.
+func (s step) argMark() string {
+	switch {
+	case s.Alias && s.Poison:
+		return "~!"
+	case s.Alias:
+		return "~"
+	}
+	return ""
 }
 
 func ints(v []int) string {
@@ -450,6 +498,137 @@ func randProgram(r *vlib.Rand, id string) *program {
 	for i := 0; i < 5; i++ {
 		p.PLib = append(p.PLib, r.Bool())
 		p.SLib = append(p.SLib, r.Bool())
+	}
+	return p
+}
+
+// ---------------------------------------------------------------------------------------------
+// Class alias: a random program in which most registration calls pass their arguments in a caller-owned slice that
+// is re-used by the following calls, extended from a common prefix, or overwritten right after the call returned.
+// What was registered is the value of the arguments at call time.
+
+func aliasProgram(r *vlib.Rand, id string) *program {
+	p := randProgram(r, id)
+	total := 0
+	for _, s := range p.Steps {
+		if s.Op == opMW {
+			total += len(s.IDs)
+		}
+	}
+	prev := -1 // index of the previous aliased mw step
+	for i := range p.Steps {
+		s := &p.Steps[i]
+		if s.Op != opMW && s.Op != opPDec && s.Op != opSDec {
+			continue
+		}
+		if !r.Chance(0.75) {
+			continue
+		}
+		s.Alias = true
+		s.Poison = r.Chance(0.4)
+		if s.Op != opMW {
+			continue
+		}
+		if prev >= 0 && r.Chance(0.4) {
+			// append(base, x)... where base is a prefix of the previous call's argument slice
+			k := r.Range(1, len(p.Steps[prev].IDs))
+			if total+k <= 20 {
+				total += k
+				s.IDs = append(append([]int(nil), p.Steps[prev].IDs[:k]...), s.IDs...)
+			}
+		}
+		prev = i
+	}
+	return p
+}
+
+func countAliased(p *program) (calls, poisoned int) {
+	for _, s := range p.Steps {
+		if s.Alias {
+			calls++
+			if s.Poison {
+				poisoned++
+			}
+		}
+	}
+	return
+}
+
+// ---------------------------------------------------------------------------------------------
+// Classes retry/*: a random program plus transient faults in decorator constructors and/or Subscribe.
+
+const (
+	famPDec = iota
+	famSDec
+	famSubscribe
+	famMixed
+	nFamilies
+)
+
+var familyName = [nFamilies]string{"pdec-fault", "sdec-fault", "subscribe-fault", "mixed"}
+
+func decCounts(p *program) (np, ns int) {
+	for _, s := range p.Steps {
+		switch s.Op {
+		case opPDec:
+			np += len(s.IDs)
+		case opSDec:
+			ns += len(s.IDs)
+		}
+	}
+	return
+}
+
+func retryProgram(r *vlib.Rand, id string, family int) *program {
+	var p *program
+	var np, ns int
+	for try := 0; try < 50; try++ {
+		p = randProgram(r, id)
+		np, ns = decCounts(p)
+		ok := false
+		switch family {
+		case famPDec:
+			ok = np >= 2
+		case famSDec:
+			ok = ns >= 2
+		case famSubscribe:
+			ok = np+ns >= 1
+		default:
+			ok = np >= 1 && ns >= 1
+		}
+		if ok {
+			break
+		}
+	}
+	p.HasFaults = true
+	p.DeliverBetween = r.Bool()
+	p.RetryRun = r.Bool()
+	nF := 1
+	switch x := r.Intn(10); {
+	case x >= 8:
+		nF = 3
+	case x >= 5:
+		nF = 2
+	}
+	nH := len(p.Handlers)
+	for i := 0; i < nF; i++ {
+		kind := family
+		if family == famMixed {
+			kind = r.Intn(3)
+		}
+		f := fault{Times: 1}
+		if r.Chance(0.25) {
+			f.Times = 2
+		}
+		switch {
+		case kind == famPDec && np > 0:
+			f.Kind, f.ID, f.Nth = "pdec", r.Intn(np), r.Range(1, nH)
+		case kind == famSDec && ns > 0:
+			f.Kind, f.ID, f.Nth = "sdec", r.Intn(ns), r.Range(1, nH)
+		default:
+			f.Kind, f.ID, f.Nth = "subscribe", r.Intn(nH), 1
+		}
+		p.Faults = append(p.Faults, f)
 	}
 	return p
 }
